@@ -394,7 +394,15 @@ pub fn table(rng: &mut Rng, count: u64, emit: Emit) {
     for _ in 0..count {
         let profile = *rng.pick(&[Profile::Dag, Profile::Banks, Profile::RegFile, Profile::Memory]);
         let g = proggen::program(rng, profile);
-        let text = proggen::render_program(&g.stmts);
+        let mut text = proggen::render_program(&g.stmts);
+        // wires whose names differ only in the case of their letters: the table sorts them ignoring case first and
+        // by the exact name second, so their order is fixed although they come out of a hash map
+        if rng.chance(2, 3) {
+            for group in [["valQ", "valq", "VALQ", "vAlQ"], ["ifnZ", "iFnZ", "IFNZ", "ifnz"]].iter() {
+                let k = rng.range(0, 4) as usize;
+                for (j, n) in group.iter().enumerate() { if j <= k { text.push_str(&format!("wire {}:{}; {} = {};\n", n, 4 + 4 * j, n, j + 1)); } }
+            }
+        }
         let grouped = rng.chance(2, 3);
         let full = format!("{}{}", hclrs::verif_hooks::y86_preamble(), text);
         let sexp = match hclrs::verif_hooks::parse_statements(&full) { Ok(s) => s, Err(_) => { emit(format!("(noparse {})", sexp_escape(&text)), String::from("noparse")); continue; } };
